@@ -76,6 +76,20 @@ class _Gen:
     def chance(self, p: float) -> bool:
         return self.draw(st.floats(0, 1)) < p
 
+    def arith(self, leaf: str, depth: int = 0) -> str:
+        """Integer expression over ``leaf`` and small literals with + and -; nested operands are parenthesised
+        the way a person would write them (right operands of - in particular)."""
+        if depth >= 2 or self.draw(st.integers(0, 2)) == 0:
+            return leaf if self.draw(st.booleans()) else str(self.draw(st.integers(0, 4)))
+        op = self.pick(["+", "-", "-"])
+        left = self.arith(leaf, depth + 1)
+        right = self.arith(leaf, depth + 1)
+        if any(c in right for c in "+-"):
+            right = f"({right})"
+        if any(c in left for c in "+-") and self.draw(st.booleans()):
+            left = f"({left})"
+        return f"{left} {op} {right}"
+
     # -- atomic conditions over a value expression ``e`` of non-optional type ``t`` --
     def atom(self, e: str, t: TRef, depth: int = 0) -> Optional[str]:
         spec = self.spec
@@ -88,6 +102,7 @@ class _Gen:
             if t.kind == "prim":
                 # arithmetic is only defined on the primitive itself, not on constrained primitives
                 forms += [f"{e} + 1 {self.pick(CMP_OPS)} {k}", f"{e} - {abs(k)} {self.pick(CMP_OPS)} 0"]
+                forms += [f"{self.arith(e)} {self.pick(CMP_OPS)} {k}"] * 2
             int_sets = [c for c in spec.consts if c.kind == "set_int"]
             if int_sets:
                 forms.append(f"{e} in {self.pick(int_sets).name}")
@@ -104,6 +119,7 @@ class _Gen:
         if prim == "str":
             k = self.draw(st.integers(0, 5))
             forms = [f"len({e}) {self.pick(CMP_OPS)} {k}", f"{k} {self.pick(CMP_OPS)} len({e})",
+                     f"{self.arith(f'len({e})')} {self.pick(CMP_OPS)} {k}",
                      f"{e} == {pystr(self.pick(['', 'a', 'ab', 'x-1']))}",
                      f"{e} != {pystr(self.pick(['', 'a', 'b']))}"]
             pfns = [f for f in spec.fns if f.kind in ("pattern",) and len(f.args) == 1]
